@@ -134,19 +134,12 @@ def d14_4(ctx):
                   f"reply value rule deviates: {bad[:3]} (a refused reply must keep its status text: no decode attempt, no parse error; a failed decode of a valid reply is recorded, not raised)")
     same = all(outcomes.get((a.name, k[1])) == outcomes.get((b.name, k[1])) for k in outcomes)
     ctx.check(same and bool(outcomes), ckey(PC, "parse-siblings"), fb, "both generic response classes derive value and error identically on every witness", "the connected and unconnected generic responses derive their value differently")
-    drv = ctx.model.cls(f"{CD}:CIPDriver")
-    fn = drv.methods["generic_message"]
-    rets = [r for r in walk(fn) if isinstance(r, ast.Return) and isinstance(r.value, ast.Call) and call_name(r.value) == "Tag"]
-    good = False
-    for r in rets:
-        args = [atom_name(x) for x in r.value.args]
-        kw = {k.arg: atom_name(k.value) for k in r.value.keywords}
-        if args[:2] == ["name", "response.value"]:
-            good = args == ["name", "response.value", "data_type"] and kw == {"error": "response.error"}
-    last = fn.body[-1]
-    ctx.check(good and isinstance(last, ast.Return) and atom_name(last.value.args[1]) == "response.value", ckey(drv.key + ".generic_message", "tag"), fn, "returns Tag(name, response.value, data_type, error=response.error)", "generic_message does not return the response value and error unchanged")
-    sent = [c for c in walk(fn) if isinstance(c, ast.Call) and attr_path(c.func) == "self.send" and atom_name(c.args[0]) == "request"]
-    ctx.check(len(sent) == 1, ckey(drv.key + ".generic_message", "send-once"), fn, "the request is sent exactly once", f"generic_message sends the request {len(sent)} times")
+    # the Tag carries the caller's name, the reply's value (or the reply itself when asked), the data type and the reply's error, and the
+    # request is sent exactly once: decided by folding generic_message on witness requests and replies (D14.10) - an earlier form compared
+    # the argument names of the `return Tag(...)` statements and alarmed when the two returns were merged
+    from .driver import _generic_message_rule
+
+    _generic_message_rule(ctx)
 
 
 def _gm_call(ctx, fn, module):
